@@ -7,6 +7,10 @@ use quiver_core::process::{Action, Frame, ProcessId, ProcessInfo, ProcessStatus}
 use quiver_core::value::Value;
 use std::collections::{HashMap, HashSet};
 
+#[cfg(feature = "verif")]
+#[path = "worker_verif.rs"]
+pub mod verif;
+
 const MAX_STEP_UNITS: usize = 1000;
 
 /// Minimum wall-clock gap between non-forced subscription pushes for a given subscription. Coalesces
@@ -541,6 +545,8 @@ impl<E: Effect, R: CommandReceiver<E>, S: EventSender<E>> Worker<E, R, S> {
         results: ProcessResultsMap,
     ) -> Result<(), EnvironmentError> {
         let mut has_any_result = false;
+        #[cfg(feature = "verif")]
+        let results: std::collections::BTreeMap<_, _> = results.into_iter().collect();
 
         // Process each result and update awaiter
         for (awaited, result_opt) in results {
@@ -791,6 +797,8 @@ impl<E: Effect, R: CommandReceiver<E>, S: EventSender<E>> Worker<E, R, S> {
     fn check_completed_processes(&mut self) -> Result<(), EnvironmentError> {
         // Check awaited processes for completion
         let awaited_pids: Vec<ProcessId> = self.awaited.iter().copied().collect();
+        #[cfg(feature = "verif")]
+        let awaited_pids = verif::sorted(awaited_pids);
         for process_id in awaited_pids {
             if let Some(result) = self.extract_completed_result(process_id)? {
                 // Get all awaiters for this process
@@ -809,6 +817,8 @@ impl<E: Effect, R: CommandReceiver<E>, S: EventSender<E>> Worker<E, R, S> {
 
         // Check processes with pending result requests
         let pending_pids: Vec<ProcessId> = self.pending_result_requests.keys().copied().collect();
+        #[cfg(feature = "verif")]
+        let pending_pids = verif::sorted(pending_pids);
         for process_id in pending_pids {
             if let Some(result) = self.extract_completed_result(process_id)?
                 && let Some(requests) = self.pending_result_requests.remove(&process_id)
